@@ -600,12 +600,12 @@ def run(ck):
                                   "initial_variables": mal[k][1], "model(flat machine)": model, "implementation": io,
                                   "theorems": ["(off-domain: model fidelity only)"], "seed": ck.seed,
                                   "replay_cmd": "printf 'R\\t%s\\t%s\\n' | .cache/cargo-target/release/c04" % (text, enc_list(mal[k][1]))})
-    # stage D: deep-junk probe (finding KF-C04-1: pop_call_info_for_line recurses once per stale entry,
+    # stage D: deep-junk probe (finding F26: pop_call_info_for_line recursed once per stale entry,
     # so a long loop inside an if-with-else overflows the Rust stack at the else line).  Implementation
     # only, expectation known by construction; run only once the finding is registered: tolerated
     # while it is open, required to pass once it is recorded as fixed.
-    kf = [k for k in ck.known_db if k.get("property") == "C04" and k.get("id") == "KF-C04-1"]
-    probe = "not run (KF-C04-1 not registered in known_findings.json)"
+    kf = [k for k in ck.known_db if k.get("id") in ("F26", "KF-C04-1")]
+    probe = "not run (F26 not registered in known_findings.json)"
     if kf and not counters["found"]:
         n_it = 60000
         script = ["r = range 0 %d" % n_it, "if true", "for i in ${r}", "if true", "end", "end", "else", "emit no", "end", "emit done"]
@@ -614,11 +614,11 @@ def run(ck):
         probe = "ran: %s" % (out[:40])
         if not good:
             if str(kf[0].get("status", "")).startswith("open"):
-                ck.known("KF-C04-1 a %d-iteration loop inside an if-with-else aborts at the else line (%s)" % (n_it, out[:30]))
+                ck.known("F26 a %d-iteration loop inside an if-with-else aborts at the else line (%s)" % (n_it, out[:30]))
             else:
                 counters["found"] = True
                 ck.violation({"kind": "deep-junk probe: the structured semantics runs to the end (trace: done)",
-                              "script": script, "implementation": out, "finding": "KF-C04-1", "seed": ck.seed,
+                              "script": script, "implementation": out, "finding": "F26", "seed": ck.seed,
                               "replay_cmd": "printf 'R\\t%s\\t-\\n' | .cache/cargo-target/release/c04" % enc_list(script)})
     found = counters["found"]
     n_eval = counters["eval"] + n_mal
@@ -650,5 +650,5 @@ def run(ck):
         "values used in ${var} conditions are not command names or condition keywords (generator-restricted)",
         "call stacks are not compared (only the state named in observe_at: trace, variables, cached block tables)",
         "the model's call stacks and its pops are unbounded lists / structural recursion: the depth of the Rust recursion in "
-        "pop_call_info_for_line (one frame per stale entry) is not modelled (finding KF-C04-1)",
+        "pop_call_info_for_line (one frame per stale entry) is not modelled (finding F26, repaired in /repo: the pops are loops now; the deep-junk probe of this check guards it)",
     ]
